@@ -3,5 +3,7 @@
 s=$1; shift
 cd /repo && git apply /verif/seeded/$s/patch.diff || { echo "patch does not apply"; exit 2; }
 cd /verif
+mkdir -p /tmp/evsave; for p in "$@"; do cp evidence/$p.json /tmp/evsave/$p.json 2>/dev/null; done
 for p in "$@"; do VERIF_NO_PLAYBACK=1 ./check $p 2>&1 | grep -E "VIOLATION|UNDECIDED|OK:|violation|undecided" | cut -c1-400; echo "rc[$p]=${PIPESTATUS[0]}"; done
 cd /repo && git checkout -- . && git status --short | head -3
+cd /verif; for p in "$@"; do cp /tmp/evsave/$p.json evidence/$p.json 2>/dev/null; done
